@@ -7,7 +7,9 @@ base = json.load(open('/root/.vp/BASELINE.json'))
 want = set(base['stable_pass'])
 with tempfile.NamedTemporaryFile(suffix='.xml', delete=False) as f:
     xml = f.name
-env = dict(os.environ, PYTHONPATH=os.path.join(d, 'src'), PYTHONDONTWRITEBYTECODE='1')
+# a private TMPDIR: the suite leaves sandbox dirs behind; removing them from the shared /tmp would hit concurrently running exactly processes
+priv = tempfile.mkdtemp(prefix='pinned-tmp-')
+env = dict(os.environ, PYTHONPATH=os.path.join(d, 'src'), PYTHONDONTWRITEBYTECODE='1', TMPDIR=priv)
 env.pop('EXACTLY_VERIF', None)
 subprocess.run(['/venv/bin/python', '-m', 'pytest', '-ra', '-q', '-p', 'no:cacheprovider', '--timeout=900',
                 '--continue-on-collection-errors', '--junitxml=' + xml], cwd=d, env=env,
@@ -21,6 +23,6 @@ missing = sorted(want - passed)
 print('pinned: %d/%d stable tests passed' % (len(want) - len(missing), len(want)))
 for m in missing[:20]:
     print('  NOT PASSED:', m)
-# the suite leaves sandbox dirs under /tmp
-subprocess.run("find /tmp -maxdepth 1 -name 'exactly-*' -mmin -5 -exec rm -rf {} + 2>/dev/null", shell=True)
+import shutil
+shutil.rmtree(priv, ignore_errors=True)
 sys.exit(1 if missing else 0)
